@@ -10,6 +10,10 @@
      cf_rec fm rec v     collision freedom, part 2: a block (at any position: with plain xor parity a block MOVED inside the stripe
                          can come out, FixModel.reconstruct) of a vector encoded by one of the parity blocks READ passes the
                          hash test of an entry only if it is the recorded block of that entry (finite: the blocks in `rec`)
+     cf_vec fm v         collision freedom, part 3: a block of the recorded vector v at ANOTHER disk position (with plain xor
+                         parity and a stale parity block the data read from another disk can come out: the xor of the
+                         blocks cancels, FixModel.reconstruct / xor_ids) passes the hash test of an entry only if it is the
+                         recorded block of that entry
      cf_search ...       a block fetched from another file of the array (state_search_fetch) is the recorded one
      good_level v rec l  the parity block read for level l is the encoding of v
      restored F v b b'   b' = b with the positions of F replaced by v;  full v b b' : b' = v on the whole buffer
@@ -26,7 +30,7 @@ Import ListNotations.
 Theorem C01_repair_step_good :
   forall (hashf : bid -> N -> hval) (padz : bid -> N -> bool) (bs : N) (nlev pos : nat) (fm : list fent) (rec : list penc)
          (v buf : list bid) (jn : N),
-    fm_ok fm buf -> hv_ok hashf padz bs fm v -> cf_junk hashf padz bs fm -> cf_rec hashf padz bs fm rec v ->
+    fm_ok fm buf -> hv_ok hashf padz bs fm v -> cf_junk hashf padz bs fm -> cf_rec hashf padz bs fm rec v -> cf_vec hashf padz bs fm v ->
     agree_out (map fe_idx fm) v buf = true ->
     length fm <= length (filter (good_level v rec) (seq 0 nlev)) ->
     exists buf' jn' tags,
@@ -41,7 +45,7 @@ Theorem C01_repair_restores :
   forall (hashf : bid -> N -> hval) (padz : bid -> N -> bool) (bs : N) (nlev : nat) (reduced : bool) (pos : nat)
          (nosearch : bool) (fs0 : list (option fsdisk)) (failed : list fent) (rec : list penc) (v buf : list bid) (jn : N),
     blk_failed failed buf ->
-    hv_ok hashf padz bs failed v -> cf_junk hashf padz bs failed -> cf_rec hashf padz bs failed rec v ->
+    hv_ok hashf padz bs failed v -> cf_junk hashf padz bs failed -> cf_rec hashf padz bs failed rec v -> cf_vec hashf padz bs failed v ->
     cf_search hashf bs nosearch fs0 failed v ->
     agree_out (map fe_idx failed) v buf = true ->
     length failed <= length (filter (good_level v rec) (seq 0 nlev)) ->
@@ -74,6 +78,7 @@ Theorem C01_fix_step_restores :
     (forall j f idx b y, slot_of c pos j = SFile f idx b -> read_block bs s j f idx = Some y -> hash_ok hashf bs f idx b y = true -> y = vnth v j) ->
     cf_junk hashf padz bs (flat_map (fent_of hashf bs c pos s) (seq 0 (length (c_disks c)))) ->
     cf_rec hashf padz bs (flat_map (fent_of hashf bs c pos s) (seq 0 (length (c_disks c)))) (map (prow (r_par s) pos) (seq 0 nlev)) v ->
+    cf_vec hashf padz bs (flat_map (fent_of hashf bs c pos s) (seq 0 (length (c_disks c)))) v ->
     cf_search hashf bs (co_nosearch o) fs0 (flat_map (fent_of hashf bs c pos s) (seq 0 (length (c_disks c)))) v ->
     length (filter (is_bad hashf bs c pos s) (seq 0 (length (c_disks c))))
       <= length (filter (good_level v (map (prow (r_par s) pos) (seq 0 nlev))) (seq 0 nlev)) ->
@@ -106,6 +111,7 @@ Theorem C01_fix_then_check_quiet :
     (forall j f idx b y, slot_of c pos j = SFile f idx b -> read_block bs s j f idx = Some y -> hash_ok hashf bs f idx b y = true -> y = vnth v j) ->
     cf_junk hashf padz bs (flat_map (fent_of hashf bs c pos s) (seq 0 (length (c_disks c)))) ->
     cf_rec hashf padz bs (flat_map (fent_of hashf bs c pos s) (seq 0 (length (c_disks c)))) (map (prow (r_par s) pos) (seq 0 nlev)) v ->
+    cf_vec hashf padz bs (flat_map (fent_of hashf bs c pos s) (seq 0 (length (c_disks c)))) v ->
     cf_search hashf bs (co_nosearch o) fs0 (flat_map (fent_of hashf bs c pos s) (seq 0 (length (c_disks c)))) v ->
     length (filter (is_bad hashf bs c pos s) (seq 0 (length (c_disks c))))
       <= length (filter (good_level v (map (prow (r_par s) pos) (seq 0 nlev))) (seq 0 nlev)) ->
